@@ -61,6 +61,7 @@ class MStrat(object):
         self.ext_flow_today = 0.0
         self.carry_today = 0.0
         self.given_today = 0.0  # capital passed down to sub-strategies today
+        self.activity_today = 0  # flows / transfers / trades booked on this node today (even if they net to zero)
         self.last_value = 0.0
         self.last_notl = 0.0
         self.rows = {}
@@ -86,6 +87,8 @@ class Model(object):
         self.zero_base_hazard = None
         self.ntrades = 0
         self.ntransfers = 0
+        self.peak_today = 0.0  # largest single transient notional booked today (float noise scales with it)
+        self.peak_ever = 0.0
 
     # ------------------------------------------------------------------ structure
     def _build(self, spec, parent):
@@ -161,7 +164,7 @@ class Model(object):
         return self.value(n) / d if not isz(d) else 0.0
 
     def gross(self):
-        g = 1.0
+        g = 1.0 + self.peak_today
         for n in self.nodes():
             if n.issec:
                 p = self.price(n)
@@ -200,6 +203,8 @@ class Model(object):
                     n.ext_flow_today = 0.0
                     n.carry_today = 0.0
                     n.given_today = 0.0
+                    n.activity_today = 0
+            self.peak_today = 0.0
             for s in self.secs():
                 if s.carry != 0.0:
                     s.parent.cash += s.carry
@@ -287,6 +292,7 @@ class Model(object):
     def ext_adjust(self, path, amount, flow):
         n = self.node(path)
         n.cash += amount
+        n.activity_today += 1
         if flow:
             n.flows_today += amount
             n.ext_flow_today += amount
@@ -298,8 +304,13 @@ class Model(object):
         """capital pushed into strategy `path` from its parent (root: net zero)."""
         n = self.node(path)
         self.ntransfers += 1
+        n.activity_today += 1
         if n.parent is None:
             return
+        n.parent.activity_today += 1
+        if abs(amount) > self.peak_today:
+            self.peak_today = abs(amount)
+            self.peak_ever = max(self.peak_ever, self.peak_today)
         n.parent.cash -= amount
         n.parent.given_today += amount
         n.cash += amount
@@ -326,6 +337,10 @@ class Model(object):
         par = s.parent
         par.cash -= outlay + fee
         par.fees_today += fee
+        par.activity_today += 1
+        if abs(outlay) > self.peak_today and outlay == outlay:
+            self.peak_today = abs(outlay)
+            self.peak_ever = max(self.peak_ever, self.peak_today)
         self.ntrades += 1
         self._track_equity()
         return outlay, fee, bo
